@@ -195,6 +195,7 @@ type session struct {
 	sessionAgeLock                 sync.RWMutex
 	contextAgeLock                 sync.RWMutex
 	lock                           sync.RWMutex
+	setIDLock                      sync.Mutex  // serialises SetID calls of this session
 	redialForClientLocked          func() bool // only for client role
 	seq                            int32
 	status                         int32
@@ -356,6 +357,9 @@ func (s *session) ID() string {
 
 // SetID sets the session id.
 func (s *session) SetID(newID string) {
+	// one id change at a time: two interleaved changes left the session under two keys
+	s.setIDLock.Lock()
+	defer s.setIDLock.Unlock()
 	oldID := s.ID()
 	if oldID == newID {
 		return
